@@ -152,6 +152,49 @@ def rule_wrap_atomics(ctx):
     r.instance("RawAtomic::fetch_or == one atomic fetch_or of (tag & low_bits) on its own cell", ok)
     if not ok:
         bad(b.name, "RawAtomic::fetch_or is not a single atomic fetch_or of the masked tag on its own cell", b)
+    # ---- RawShared: the pointer type of the collector's own queue and list is a Tagged with a lifetime; every accessor is
+    # the Tagged accessor of the same name on its own word, operands in order (EBR-QUEUE / EBR-LIST reason with these)
+    RS = "ebr_impl::pointers::RawShared::<'g, T>::"
+    TG = "ebr_impl::pointers::Tagged::<T>::"
+    for m, nargs in (("tag", 1), ("with_tag", 2), ("as_raw", 1), ("ptr_eq", 2), ("deref", 1), ("as_ref", 1)):
+        if RS + m not in prog.bodies:
+            continue
+        b, ps = _ret_paths(ctx, RS + m)
+        ok = len(ps) == 1
+        if ok:
+            c = _calls(ps[0], lambda e: (e.target or "") == TG + m)
+            ok = len(c) == 1 and len(c[0].args) == nargs and "inner" in show(c[0].args[0]) and \
+                any(y == ("arg", 1, b.local_name(1)) for y in subterms(c[0].args[0])) and \
+                c[0].result in [strip(ps[0].ret)] + list(subterms(ps[0].ret))
+            if ok and nargs == 2:
+                a2 = strip(c[0].args[1])
+                ok = any(y == ("arg", 2, b.local_name(2)) for y in [a2] + list(subterms(a2)))
+            if ok:
+                # nothing else but the wrapping back into a RawShared
+                ok = all(e is c[0] or ("RawShared" in (e.target or "") and (e.target or "").endswith(">::from")) for e in _calls(ps[0]))
+        r.instance("RawShared::%s == Tagged::%s on its own word" % (m, m), ok)
+        if not ok:
+            bad(b.name, "RawShared::%s is not exactly Tagged::%s of its own word (operands in order, result returned)" % (m, m), b)
+    if RS + "from_owned" in prog.bodies:
+        b, ps = _ret_paths(ctx, RS + "from_owned")
+        ok = len(ps) == 1
+        if ok:
+            nm = [norm(e.target or "") for e in _calls(ps[0])]
+            ok = nm.count("std::boxed::Box::new") == 1 and nm.count("std::boxed::Box::into_raw") == 1 and \
+                any(strip(e.args[0]) == ("arg", 1, b.local_name(1)) for e in _calls(ps[0]) if norm(e.target or "") == "std::boxed::Box::new")
+        r.instance("RawShared::from_owned == Box::into_raw(Box::new(init))", ok)
+        if not ok:
+            bad(b.name, "RawShared::from_owned does not box exactly its argument", b)
+    if RS + "drop" in prog.bodies:
+        b, ps = _ret_paths(ctx, RS + "drop")
+        ok = len(ps) == 1
+        if ok:
+            fr = _calls(ps[0], lambda e: norm(e.target or "") == "std::boxed::Box::from_raw")
+            ok = len(fr) == 1 and any(isinstance(y, tuple) and y[0] == "call" and y[1] == TG + "as_raw" for y in subterms(fr[0].args[0])) and \
+                (any(e.kind == "drop" for e in ps[0].events) or bool(_calls(ps[0], lambda e: norm(e.target or "") == "std::mem::drop")))
+        r.instance("RawShared::drop == drop(Box::from_raw(self.inner.as_raw()))", ok)
+        if not ok:
+            bad(b.name, "RawShared::drop does not free exactly the allocation behind the untagged address", b)
     # ---- IsElement for Local: entry_of adds, element_of subtracts, the same offset
     eo = prog.body("<ebr_impl::internal::Local as ebr_impl::sync::list::IsElement<ebr_impl::internal::Local>>::entry_of")
     el = prog.body("<ebr_impl::internal::Local as ebr_impl::sync::list::IsElement<ebr_impl::internal::Local>>::element_of")
@@ -177,7 +220,7 @@ def rule_wrap_atomics(ctx):
     r.instance("IsElement<Local>::finalize defers the destruction of element_of(entry)", ok)
     if not ok:
         r.violate(fin.name, "finalize", "finalize does not defer_destroy the Local that owns the entry", fin.loc(0))
-    r.require(len(r.instances), 10, "wrapper obligations")
+    r.require(len(r.instances), 14, "wrapper obligations")
     return r
 
 
@@ -481,4 +524,123 @@ def rule_defer_wrapper(ctx):
             if not ok:
                 r.violate(du.name, "defer", "the Deferred handed to Local::defer is not the one built from the closure", du.loc(0))
     r.require(n, 4, "deferral wrapper paths")
+    return r
+
+
+def rule_ebr_init(ctx):
+    """What a participant and a collector start as.  None of the protocol rules looks at the constructors, yet each of
+    them assumes the state they leave: a fresh participant is unpinned, counts no guard and exactly the one handle that
+    `register` returns, has no collection running, and refers to the very Global it was inserted into."""
+    r = RuleResult("EBR-INIT", ["C13", "C14", "C16", "C18", "C20"],
+                   "Local::register creates an unpinned participant (epoch = starting) with guard_count 0, handle_count 1 (the "
+                   "handle it returns), all flags clear, holding a clone of the collector whose registry it is inserted into; "
+                   "Collector::clone shares the Global; Global::new starts at the starting epoch; Local::global is that Global")
+    prog = ctx.prog
+    P = "ebr_impl::internal::"
+    b, ps = _ret_paths(ctx, P + "Local::register")
+    r.functions.add(b.name)
+    ok = len(ps) == 1
+    fields = {}
+    if ok:
+        p = ps[0]
+        aggs = [e for e in p.events if e.kind == "agg" and e.adt == P + "Local"]
+        ok = len(aggs) == 1
+        if ok:
+            v = aggs[0].value
+            fields = dict(zip(v[5], v[3]))
+
+    def cell_const(t):
+        t = strip(t)
+        if isinstance(t, tuple) and t[0] == "call" and norm(t[1]) == "std::cell::Cell::new":
+            return const_of(t[2][0])
+        # Cell::default() / Default::default() of a Cell<usize> / Cell<bool>: zero / false
+        if isinstance(t, tuple) and t[0] == "call" and not t[2] and t[1].endswith("as std::default::Default>::default") \
+                and "Cell<" in t[1]:
+            return 0
+        return None
+    want = {"guard_count": 0, "handle_count": 1, "must_collect": 0, "collecting": 0, "advancing": 0}
+    for f, c in want.items():
+        if f not in fields:
+            # a flag a later change removed or renamed is not this rule's business; the two counters are
+            if f in ("guard_count", "handle_count"):
+                r.violate(b.name, "field:" + f, "Local::register no longer initialises `%s`" % f, b.loc(0))
+            continue
+        okf = cell_const(fields[f]) == c
+        r.instance("Local::register: %s = %d" % (f, c), okf)
+        if not okf:
+            r.violate(b.name, "init:" + f, "a fresh participant starts with %s = %s instead of %d: %s" % (
+                f, show(fields[f])[:40], c,
+                {"guard_count": "with a phantom guard it never publishes its epoch (pin only does so for the outermost guard)",
+                 "handle_count": "the handle register returns is the one and only owner; any other count finalizes too early or never"
+                 }.get(f, "a flag that starts set blocks collections / advances of this participant for good")), b.loc(0))
+    # other boolean flags, whatever they are called, start clear
+    for f, t in fields.items():
+        if f in want:
+            continue
+        t0 = strip(t)
+        if isinstance(t0, tuple) and t0[0] == "call" and norm(t0[1]) == "std::cell::Cell::new" and \
+                isinstance(t0[2][0], tuple) and t0[2][0][0] == "c" and t0[2][0][2] == "bool":
+            okf = const_of(t0[2][0]) == 0
+            r.instance("Local::register: flag %s starts clear" % f, okf)
+            if not okf:
+                r.violate(b.name, "init:" + f, "a fresh participant starts with the flag %s set" % f, b.loc(0))
+    ep = fields.get("epoch")
+    okp = ep is not None and any(x[0] == "call" and x[1] == "ebr_impl::epoch::AtomicEpoch::new" and
+                                 strip(x[2][0])[0] == "call" and strip(x[2][0])[1] == "ebr_impl::epoch::Epoch::starting"
+                                 for x in subterms(ep))
+    r.instance("Local::register: epoch = AtomicEpoch::new(Epoch::starting()) (unpinned)", okp)
+    if not okp:
+        r.violate(b.name, "init:epoch", "a fresh participant does not start unpinned (Epoch::starting()): a participant that "
+                  "looks pinned in epoch 0 before its first pin blocks every advance - or is trusted to be pinned when it is not",
+                  b.loc(0))
+    col = fields.get("collector")
+    okc = col is not None and any(x[0] == "call" and x[1] == "<ebr_impl::collector::Collector as std::clone::Clone>::clone" and
+                                  strip(x[2][0]) == ("arg", 1, b.local_name(1)) for x in subterms(col))
+    r.instance("Local::register: collector = clone of the collector given", okc)
+    if not okc:
+        r.violate(b.name, "init:collector", "the participant does not keep a clone of the collector it registers with", b.loc(0))
+    if ok:
+        ret = strip(ps[0].ret)
+        okr = isinstance(ret, tuple) and ret[0] == "agg" and ret[1] == "ebr_impl::collector::LocalHandle" and \
+            any(x[0] == "agg" and x[1] == P + "Local" for x in subterms(ret))
+        r.instance("Local::register returns the one handle of the participant it created", okr)
+        if not okr:
+            r.violate(b.name, "handle", "register does not return a handle to the participant it created", b.loc(0))
+    # Collector::clone shares the Global
+    cb, cps = _ret_paths(ctx, "<ebr_impl::collector::Collector as std::clone::Clone>::clone")
+    r.functions.add(cb.name)
+    okk = len(cps) == 1
+    if okk:
+        ret = strip(cps[0].ret)
+        okk = isinstance(ret, tuple) and ret[0] == "agg" and ret[1] == "ebr_impl::collector::Collector"
+        if okk:
+            g = strip(ret[3][0])
+            okk = isinstance(g, tuple) and g[0] == "call" and norm(g[1]).endswith("Arc<T, A> as std::clone::Clone>::clone") and \
+                "Collector.global" in show(g[2][0]) and "self" in show(g[2][0])
+    r.instance("Collector::clone == Collector { global: Arc::clone(&self.global) }", okk)
+    if not okk:
+        r.violate(cb.name, "clone", "cloning a collector does not share its Global: the participant (which keeps a clone) would "
+                  "pin against another clock and flush into another queue than the registry it sits in", cb.loc(0))
+    # Global::new
+    gb, gps = _ret_paths(ctx, P + "Global::new")
+    r.functions.add(gb.name)
+    okg = len(gps) == 1 and any(x[0] == "call" and x[1] == "ebr_impl::epoch::AtomicEpoch::new" and
+                                strip(x[2][0])[0] == "call" and strip(x[2][0])[1] == "ebr_impl::epoch::Epoch::starting"
+                                for x in subterms(gps[0].ret))
+    r.instance("Global::new: epoch = AtomicEpoch::new(Epoch::starting())", okg)
+    if not okg:
+        r.violate(gb.name, "init:epoch", "the global epoch does not start at Epoch::starting()", gb.loc(0))
+    # Local::global / Local::collector
+    lb, lps = _ret_paths(ctx, P + "Local::global")
+    r.functions.add(lb.name)
+    okl = len(lps) == 1 and "Collector.global" in show(lps[0].ret) and (P + "Local::collector") in [e.target for e in _calls(lps[0])]
+    r.instance("Local::global == &self.collector().global", okl)
+    if not okl:
+        r.violate(lb.name, "global", "Local::global is not the Global of the participant's own collector", lb.loc(0))
+    kb, kps = _ret_paths(ctx, P + "Local::collector")
+    okk2 = len(kps) == 1 and "Local.collector" in show(kps[0].ret) and "self" in show(kps[0].ret)
+    r.instance("Local::collector == &*self.collector.get()", okk2)
+    if not okk2:
+        r.violate(kb.name, "collector", "Local::collector does not return the participant's own collector", kb.loc(0))
+    r.require(len(r.instances), 9, "constructor obligations")
     return r
